@@ -12,6 +12,8 @@ from ..core import Engine, stream, BuildError, digest
 from ..build import World
 from ..gen import ExprGen, gen_types, values_of, subtype_of
 from ..refsem import RefSem, Ambiguous, UNDEF, state_key
+
+from unified_planning.plans import ActionInstance
 from .statehist import KNOBS
 
 from unified_planning.model import UPState
@@ -285,6 +287,10 @@ class SimRun(Engine):
                 an, ps = ro.choice(insts)
                 kind = "apply" if ro.random() < 0.6 else "is_applicable"
                 op = {"op": kind, "s": sid, "a": an, "params": list(ps)}
+                if ro.random() < 0.25:
+                    # the same query through another form of the API: an ActionInstance, an equal but distinct Action
+                    # (clone), actual parameters as expressions instead of Objects
+                    op["form"] = ro.choice(["instance", "clone", "exprs"])
                 try:
                     ok, new, why = rs.successor(states[sid], an, ps)
                 except Ambiguous:
@@ -445,12 +451,23 @@ class SimRun(Engine):
                         not W.objects[o].type.is_subtype(q.type) for o, q in zip(op["params"], act.parameters)):
                     continue
                 ps = params_nodes(op)
-                if k == "apply":
-                    ra_ = call(sim.apply, st, act, ps)
-                    ri_ = call(sim.is_applicable, st, act, ps)
+                form = op.get("form")
+                if form == "instance":
+                    qargs = (ActionInstance(act, ps),)
+                elif form == "clone":
+                    qargs = (act.clone(), ps)
+                elif form == "exprs":
+                    qargs = (act, [W.em.ObjectExp(o) for o in ps])
                 else:
-                    ri_ = call(sim.is_applicable, st, act, ps)
-                    ra_ = call(sim.apply, st, act, ps)
+                    qargs = (act, ps)
+                if form:
+                    ctx.probe("query-form:" + form)
+                if k == "apply":
+                    ra_ = call(sim.apply, st, *qargs)
+                    ri_ = call(sim.is_applicable, st, *qargs)
+                else:
+                    ri_ = call(sim.is_applicable, st, *qargs)
+                    ra_ = call(sim.apply, st, *qargs)
                 qa = ("apply", op["s"], op["a"], op["params"])
                 qi = ("is_applicable", op["s"], op["a"], op["params"])
                 ok_a = no_raise(ra_, f"apply({op['s']}, {op['a']}{op['params']})", i)
